@@ -34,6 +34,15 @@ func init() {
 			c.Floor("R11f", 3, "loadXPathExpr (2) + stream-reader constructors")
 		}
 	})
+	wrapRun("C16", func(c *core.Ctx) {
+		// R16f: the hierarchical readers (csv2, fixedlength2, edi) return nothing but NIL, io.EOF and their own fatal type
+		// from Read (= C05 R05c): a plain error manufactured at the top of Read from a wrapped input failure would be
+		// continuable and re-occur on every call
+		if c.CountRule("R16f") == 0 {
+			importRules(c, "C05", map[string]string{"R05c": "R16f"})
+			c.Floor("R16f", 3, "csv2, fixedlength2, edi")
+		}
+	})
 	wrapRun("C03", func(c *core.Ctx) {
 		if c.CountRule("K10") == 0 {
 			c03NoReadRecursion(c)
